@@ -286,8 +286,11 @@ class Report(object):
         for l in lines:
             print(l)
         if herr:
-            for h in herr[:5]:
-                print('HARNESS-ERROR property=%s %s' % (self.prop, json.dumps(h, default=repr)[:3000]))
+            for h in herr[:3]:
+                msg = str(h.get('message', ''))
+                print('HARNESS-ERROR property=%s section=%s param=%s decisions=%s\n    %s' % (
+                    self.prop, h.get('section'), json.dumps(h.get('param'), default=repr)[:200],
+                    json.dumps(h.get('decisions'), default=repr)[:200], msg[-900:].replace('\n', '\n    ')))
             return 3
         if new:
             return 1
